@@ -497,7 +497,87 @@ func instrRun(c *core.Ctx) {
 			}
 		}
 	}
+	// linear bound INSIDE one cue: 2^k lines in one cue, 2^k tagged runs on one line, 2^k comment / style / header lines
+	for _, f := range []string{"srt", "vtt", "ssa", "ttml"} {
+		for kind := 0; kind < 3; kind++ {
+			for k := 0; k <= 12; k++ {
+				if !c.Mine() {
+					continue
+				}
+				data := scaledInside(f, kind, 1<<k)
+				for _, rd := range readersFor(f) {
+					do("scaled-inside."+f, ReadCase{rd, data, fmt.Sprintf("kind %d x %d", kind, 1<<k)})
+				}
+			}
+		}
+	}
 	writersRun(c)
+}
+
+// scaledInside: one cue that grows inside. kind 0: n text lines; 1: one line of n tagged runs; 2: n lines in front of
+// the cue (comments / styles / script info / head metadata).
+func scaledInside(f string, kind, n int) []byte {
+	var b bytes.Buffer
+	rep := func(s string) string { return strings.Repeat(s, n) }
+	switch f {
+	case "srt":
+		b.WriteString("1\n00:00:01,000 --> 00:00:02,000\n")
+		switch kind {
+		case 0:
+			b.WriteString(rep("a line\n"))
+		case 1:
+			b.WriteString(rep("<i>x</i> <b>y</b> ") + "\n")
+		default:
+			b.WriteString("x\n\n" + rep("\n") + "2\n00:00:03,000 --> 00:00:04,000\ny\n")
+		}
+	case "vtt":
+		b.WriteString("WEBVTT\n\n")
+		if kind == 2 {
+			b.WriteString("NOTE\n" + rep("a comment line\n") + "\nSTYLE\n" + rep("::cue { color: red }\n") + "\n")
+		}
+		b.WriteString("00:00:01.000 --> 00:00:02.000\n")
+		switch kind {
+		case 0:
+			b.WriteString(rep("<v Bob>a line\n"))
+		case 1:
+			b.WriteString(rep("<c.red>x</c> <00:00:01.500><b>y</b> ") + "\n")
+		default:
+			b.WriteString("x\n")
+		}
+	case "ssa":
+		b.WriteString("[Script Info]\nTitle: t\n")
+		if kind == 2 {
+			b.WriteString(rep("; a comment\n") + rep("Unknown key: value\n"))
+		}
+		b.WriteString("\n[Events]\nFormat: Marked, Start, End, Style, Name, MarginL, MarginR, MarginV, Effect, Text\nDialogue: Marked=0,0:00:01.00,0:00:02.00,,,0,0,0,,")
+		switch kind {
+		case 0:
+			b.WriteString(rep("a line\\N"))
+		case 1:
+			b.WriteString(rep("{\\i1}x{\\i0} y, "))
+		default:
+			b.WriteString("x")
+		}
+		b.WriteString("\n")
+	case "ttml":
+		b.WriteString("<tt xmlns=\"http://www.w3.org/ns/ttml\" xmlns:tts=\"http://www.w3.org/ns/ttml#styling\"><head><styling>")
+		if kind == 2 {
+			for i := 0; i < n; i++ {
+				fmt.Fprintf(&b, "<style xml:id=\"s%d\" tts:color=\"red\"/>", i)
+			}
+		}
+		b.WriteString("</styling></head><body><div><p begin=\"1s\" end=\"2s\">")
+		switch kind {
+		case 0:
+			b.WriteString(rep("a line<br/>"))
+		case 1:
+			b.WriteString(rep("<span tts:color=\"red\">x</span> y "))
+		default:
+			b.WriteString("x")
+		}
+		b.WriteString("</p></div></body></tt>")
+	}
+	return b.Bytes()
 }
 
 // binaryGenerators lets other packages (the teletext encoder) contribute structured binary families.
@@ -928,7 +1008,7 @@ func init() {
 		ID: "C08", Level: "exploration",
 		Rule: "readers: three exhaustively enumerated input families fed to the reader of their format (and across formats, and through the extension-dispatching opener): (1) all words of length <=L over a per-format alphabet of 12-13 lexemes, (2) the full single-mutation ball around every corpus document (every prefix, every single-byte deletion, every single-byte replacement by each of 12 bytes, every line-boundary splice of two same-format documents), (3) structured binary variations (STL GSI fields, DFC/DSC/CCT strings, every byte value at TTI text positions and header bytes, diacritic-led byte pairs; TS families contributed by the teletext encoder); writers: a nil-lattice of the public types explored within B deviations (every optional pointer/map independently present, nil or odd; 11 text atoms; 5 time atoms) to all five writers (TTML x 3 indents). Oracle: no panic (recover at the public entry point; a panic inside the third-party demuxer is excluded) and steps executed in package astisub <= 50000 + 400*len(input) (statement-level step counter of the instrumented build; no wall-clock oracle), also on scaled inputs of 2^k cues; distinct = (reader, input bytes) / (writer, lattice point)",
 		Scope: map[core.Tier]string{
-			core.Quick:    "token words L<=5 (cross-format L<=3); mutation ball around all corpus documents; STL structured families; scaled inputs up to 4096 cues; writer lattice B=2; plain lists of 255..100001 cues (12 counts around digit-count and power-of-two boundaries) to every writer",
+			core.Quick:    "token words L<=5 (cross-format L<=3); mutation ball around all corpus documents; STL structured families; scaled inputs up to 4096 cues and, inside one cue, up to 4096 lines / tagged runs / header lines; writer lattice B=2; plain lists of 255..100001 cues (12 counts around digit-count and power-of-two boundaries) to every writer",
 			core.Thorough: "token words L<=6 (cross-format L<=4); writer lattice B=3; plain lists up to 1000000 cues",
 		},
 		Assumptions: []string{"Go toolchain and standard library", "steps inside dependencies (bufio, encoding/xml, x/net/html, astits) are not counted: their loops are bounded by the input length", "instrumented build = plain build with inert hooks (validated in setup)"},
